@@ -5,7 +5,8 @@ import probes
 ELEM_ALPHA = ["push", "insert", "pop", "remove", "swap_remove", "typed", "clear", "get", "mutate", "hmutate", "ext_drop", "forget"]
 
 def m_elem(tier):
-    return dict(alpha=ELEM_ALPHA, MaxLen=3 if tier == "quick" else 4, MaxExt=1, MaxDepth=40)
+    return dict(alpha=ELEM_ALPHA, MaxLen=3 if tier == "quick" else 4, MaxExt=1, MaxDepth=40,
+                srcs=["wrapper", "raw", "typed", "typeless", "sizeless"])
 
 ALL_FORMS = ["x..y", "x..=y", "..y", "..=y", "x..", "..", "x<..y", "x<..=y", "x<.."]
 def m_range(tier):
@@ -28,7 +29,7 @@ def m_shift(tier):
     # layout sweep: one long vector, only the byte-moving paths (erased insert/remove/swap_remove, drain/splice tail moves),
     # so that the shifted byte counts cross the word (8) and memmove (128) thresholds of the copy helpers on every layout
     return dict(alpha=["push", "insert", "remove", "swap_remove", "drain", "splice"], MaxLen=6 if tier == "quick" else 9, MaxLenB=0,
-                MaxExt=0, MaxOut=0, MaxRepl=2, OneHandle=True, forms=["x..y"], srcs=["raw", "typed"], sinks=["drop"], timeout=6000)
+                MaxExt=0, MaxOut=0, MaxRepl=2, OneHandle=True, forms=["x..y"], srcs=["raw", "typed", "sizeless"], sinks=["drop"], timeout=6000)
 LAYOUTS_Q = ["heap1n", "heap3n", "heap12d", "heap24d", "heap0d"]
 LAYOUTS_T = ["heap1n", "heap2d", "heap3n", "heap8d", "heap12d", "heap16d", "heap24d", "heap32d", "heap64n", "heap160", "heap160a32", "heap0d", "heap0n"]
 
@@ -94,7 +95,7 @@ def m_place(tier):
 def m_amort(tier):
     # growth through repeated push is amortised: one run of PushManyN pushes, then ordinary operations on the long vector
     return dict(alpha=["push_many", "clear"], MaxLen=0, MaxLenB=0, MaxExt=0, srcs=["raw"], sinks=["drop"], OneHandle=True,
-                PushManyN=2048 if tier == "quick" else 60000, invariants=["HandleInv"])
+                PushManyN=60000, invariants=["HandleInv"])
 
 MODELS = {
     "place": m_place, "amort": m_amort,
@@ -154,8 +155,8 @@ def c03(tier):
             dict(model="xchg", configs=cfgs(["heap8d", "heap160", "heap0d"], (R, D))), rnd(tier, ["heap8d", "heap160", "heap0d", "fence24d"], nvecs=3)]
 def c07(tier):
     if tier == "quick":
-        return [dict(model="elem", configs=cfgs(["heap8d"], (R,))), dict(model="range", configs=cfgs(["heap8d"], (R,)))]
-    return [dict(model="elem", configs=cfgs(["heap8d", "heap160", "heap3n"], (R, D))), dict(model="range", configs=cfgs(["heap8d", "heap160", "heap3n"], (R, D)))]
+        return [dict(model="elem", configs=cfgs(["heap8d", "heap3n"], (R,))), dict(model="range", configs=cfgs(["heap8d", "heap3n"], (R,)))]
+    return [dict(model="elem", configs=cfgs(["heap8d", "heap160", "heap3n", "heap0d"], (R, D))), dict(model="range", configs=cfgs(["heap8d", "heap160", "heap3n", "heap0d"], (R, D)))]
 def c13(tier):
     if tier == "quick":
         return [dict(model="elem", configs=cfgs(["heap8d", "heap3n"], (R,))), dict(model="iter", configs=cfgs(["heap8d", "heap3n"], (R,))),
@@ -181,16 +182,16 @@ def c10(tier):
             dict(model="amort", shards=1, configs=cfgs(["heap8n", "fence8d", "heap0d", "heap160"], (R, D)))]
 def c11(tier):
     if tier == "quick":
-        return [dict(model="fixed", configs=cfgs(["stack8x3p", "stackn3"], (R,))), dict(model="elem", configs=cfgs(["stack24x3"], (R,))),
+        return [dict(model="fixed", configs=cfgs(["stack8x3p", "stackn3"], (R,))), dict(model="elem", configs=cfgs(["stack24x3", "stack0d"], (R,))),
                 dict(model="clonefixed", configs=cfgs(["stack8c"], (R,)))]
     return [dict(model="fixed", configs=cfgs(["stack24x3", "stackn3", "stack8x3m", "stack8x3p"], (R, D))),
             dict(model="fixed2", configs=cfgs(["stack8x2p", "stackn2"], (R, D))),
-            dict(model="elem", configs=cfgs(["stack24x3", "stackn3"], (R, D))), dict(model="range", configs=cfgs(["stack24x3"], (R,))),
+            dict(model="elem", configs=cfgs(["stack24x3", "stackn3", "stack0d"], (R, D))), dict(model="range", configs=cfgs(["stack24x3", "stack0d"], (R,))),
             dict(model="clonefixed", configs=cfgs(["stack8c", "stackn3"], (R, D)))]
 def c05(tier):
     if tier == "quick":
-        return [dict(model="elem", configs=cfgs(["fence8d", "fence3n"], (R,))), dict(model="range", configs=cfgs(["fence8d"], (R,))),
-                dict(model="shift", configs=cfgs(["fence24d", "fence3n", "fence160"], (R,))), dict(model="cap", configs=cfgs(["fence8d", "fence0d"], (R,))),
+        return [dict(model="elem", configs=cfgs(["fence8d", "fence3n", "heap8d"], (R,))), dict(model="range", configs=cfgs(["fence8d"], (R,))),
+                dict(model="shift", configs=cfgs(["fence24d", "fence3n", "fence160"], (R,))), dict(model="cap", configs=cfgs(["fence8d", "fence0d", "heap8d", "heap160"], (R,))),
                 rnd(tier, ["fence8d", "fence24d"])]
     return [dict(model="elem", configs=cfgs(["fence8d", "fence3n", "fence24d", "fence160", "fence0d", "heap8d"], (R, D))),
             dict(model="range", configs=cfgs(["fence8d", "fence3n", "fence24d", "fence160", "heap8d"], (R, D))),
